@@ -578,6 +578,47 @@ pub fn run_c09(cfg: &Cfg) -> Report {
             Ok(b) => cx.violation(format!("malformed path {:?} is accepted and emitted instead of being refused", s), obj(vec![("emitted", hex(&b).into())])),
         }
     }));
+    // malformed in more than one place: dots moved / added inside a well-formed string (same length),
+    // and short random strings over a dot-heavy alphabet. Anything that is not a well-formed path by
+    // the harness's own definition must be refused.
+    let nmm = cfg.scaled(if thorough { 2_000_000 } else { 60_000 });
+    rep.merge(par_cases(cfg, "names.malformed_multi", nmm, |cx| {
+        let mut r = cx.rng.clone();
+        let s: String = if cx.idx % 2 == 0 {
+            let n = 1 + r.usize_below(6);
+            let p = PathT { root: r.chance(1, 3), segs: (0..n).map(|_| gen_seg(&mut r)).collect() };
+            let mut b = p.to_string().into_bytes();
+            for _ in 0..1 + r.below(3) {
+                let k = r.usize_below(b.len());
+                b[k] = if b[k] == b'.' { *r.pick(LEAD) } else { b'.' };
+            }
+            String::from_utf8(b).unwrap()
+        } else {
+            let n = r.usize_below(25);
+            (0..n).map(|_| *r.pick(b"AB_9...\\") as char).collect()
+        };
+        // the harness's own well-formedness rule
+        let body = s.strip_prefix('\\').unwrap_or(&s);
+        let well_formed = !body.is_empty()
+            && body.split('.').all(|seg| seg.len() == 4 && seg.bytes().enumerate().all(|(i, c)| if i == 0 { LEAD.contains(&c) } else { REST.contains(&c) }));
+        if well_formed {
+            return;
+        }
+        // strings whose every segment has 4 bytes but contains a character outside the name alphabet
+        // (digit first, a second backslash) are not covered by the property's refusal clause
+        if !body.is_empty() && body.split('.').all(|seg| seg.len() == 4) {
+            return;
+        }
+        cx.eval();
+        cx.obs();
+        match catches(|| to_vec(&aml::Path::new(&s))) {
+            Err(_) => {
+                cx.rep.cov("malformed_multi_refused");
+                cx.rep.distinct(&s);
+            }
+            Ok(b) => cx.violation(format!("malformed path {:?} (a segment is not exactly four characters) is accepted and emitted", s), obj(vec![("emitted", hex(&b).into())])),
+        }
+    }));
     // the 11 path-taking constructors, parsed back
     let counts = [1usize, 2, 3, 4, 254, 255];
     rep.merge(par_cases(cfg, "names.constructors", 11 * 6 * 2, |cx| {
@@ -998,6 +1039,27 @@ pub fn run_c16(cfg: &Cfg) -> Report {
             }
         }));
     }
+    // ids whose compressed value has zero bytes (narrow integer encodings): every letter triple with
+    // product numbers that zero one or both product bytes
+    rep.exhaustive("C16 all 26^3 vendor triples x product numbers {0000,0001,00FF,0100,FF00,FFFF,1000,0010}");
+    rep.merge(par_cases(cfg, "eisa.narrow", 26 * 26 * 26, |cx| {
+        let l = cx.idx;
+        let pre = [b'A' + (l / 676) as u8, b'A' + ((l / 26) % 26) as u8, b'A' + (l % 26) as u8];
+        for prod in ["0000", "0001", "00FF", "0100", "FF00", "FFFF", "1000", "0010"] {
+            let p = prod.as_bytes();
+            let id = [pre[0], pre[1], pre[2], p[0], p[1], p[2], p[3]];
+            cx.eval();
+            cx.obs();
+            match eisa_case(&id) {
+                Ok(()) => cx.rep.distinct(&id),
+                Err(e) => {
+                    cx.violation(e, J::Null);
+                    return;
+                }
+            }
+        }
+        cx.rep.cov("eisa_narrow_constant_ids");
+    }));
     // malformed EISA: wrong lengths, and EVERY non-hex ASCII byte at each of the four digit positions
     let non_hex: Vec<u8> = (0u8..128).filter(|c| !(*c as char).is_ascii_hexdigit()).collect();
     let nnh = non_hex.len() as u64;
